@@ -43,6 +43,41 @@ CHECKS = {
    "~800 (quick) / ~16000 (thorough) programs on normal, cancel and Shutdown paths (early refresh, pop, queued bars, n>q, manual refresh channel abandoned, traverse racing with done); after each, runtime.Stack(all) is polled until no library frame remains.",
    "goroutines running harness callbacks are the harness' own; still-moving goroutines extend the poll and are never called leaks",
    "DESIGN.md 4/C16"),
+ "C04": ("exploration",
+   "runtime monitor: terminal emulator (ECMA-48 subset with scrollback) fed with every recorded output write; tape invariants checked after every frame; real pty for the terminal path",
+   "~960 (quick) / ~19000 (thorough) programs whose frames change height every cycle (bars added, removed, popped, extender rows, 0-5 text lines per cycle) on in-memory outputs and on real ptys of 2-24 rows x 60-200 columns with bar counts below, at and above the height; after every frame the emulator's tape must equal persisted lines ++ frame rows, the persisted region is append-only and made exactly of written text and popped rows, no live row is in the scrollback, no autowrap, nothing stale below; nothing before a render delay is released; nothing at all for non-refreshing non-terminal outputs.",
+   "trusted base: the emulator (golden vectors re-checked by setup_cmd); terminal size fixed per scenario; priority changes are not generated in pop-mode display scenarios",
+   "DESIGN.md 2.5, 4/C04"),
+ "C06": ("exploration",
+   "runtime monitor: per-frame order oracle over parsed frames against the recorded priority history (invoke/return intervals vs cycle-exact hook timestamps), with applied / ambiguous / pending classification and the lazy-change exemption",
+   "~900 (quick) / ~18000 (thorough) programs: deterministic manual-refresh sequences of up to 120 lazy/immediate priority updates on 2-40 bars with equal, distinct, negative and extreme values; auto-refresh programs with 2-4 clients changing priorities concurrently with rendering; pop-mode programs (finished bars must rise in finishing order, taken from the flush hook). Every frame not exempted by a lazy change must be sorted under some admissible assignment.",
+   "successors are checked by the rank rule only; same-cycle finishers' mutual order follows the flush order",
+   "DESIGN.md 4/C06"),
+ "C11": ("exploration",
+   "runtime monitor: per-bar flag monitor fed by every client read, every frame's Statistics (marker rows) and the post-Wait getters, over histories that cross the terminal transition",
+   "~1200 (quick) / ~24000 (thorough) programs with 1-4 clients issuing Abort at current==total, Abort on total<=0 bars, non-decreasing updates after Abort/completion, EnableTriggerComplete, SetTotal and getters, with cancel/Shutdown placed by trigger at bar.trigger / flush.bar / bar.exit; no observation may carry both flags, no flag may flip back (later = invoked after the earlier returned), after Wait exactly one holds, cancellation-only endings are aborted.",
+   "post-terminal updates restricted to non-decreasing ones, as the property says",
+   "DESIGN.md 4/C11"),
+ "C12": ("exploration",
+   "runtime monitor: column oracle over parsed frames: each row's decorator part is rebuilt from its own tokens with one common width per synchronised column (max of the needs incl. W and extra-space flag over the bars of that frame) and compared byte for byte",
+   "~800 (quick) / ~16000 (thorough) programs with 2-12 bars carrying 0-3 synchronised and plain decorators per side in every mix (different counts per bar, both sides, wrapped in on-complete/on-abort/meta wrappers 1-3 deep, slow decorators, text widths changing every frame) while bars are added, completed, removed, popped and replaced, incl. n>q.",
+   "container wide enough that nothing is truncated; bars clipped by height would still take part, so these scenarios never clip",
+   "DESIGN.md 4/C12"),
+ "C15": ("fault_enumeration",
+   "runtime monitor: fault injection at enumerated sites (k-th Fill of bar i, k-th extender call, k-th output Write, k-th terminal-size query via dup2 on a pty) + stuck-state certificate + debug-output / frame / hook assertions",
+   "~850 (quick) / ~17000 (thorough) programs with one injected render error (k in 1,2,3,5,random; failing bar anywhere in the order) while the other bars carry unequal numbers of synchronised and slow decorators; after the fault: Wait returns (no certificate), no crash, the debug output holds the error exactly once, no further render cycle or output write, no bar running.",
+   "fault sites that were not reached (bar finished earlier) count as trivial",
+   "DESIGN.md 4/C15"),
+ "C17": ("exploration",
+   "runtime monitor: frame oracle for queued bars (never together with the predecessor, hand-over in the very next frame when queued in time, prompt otherwise, predecessor's rank) + stuck-state certificate / bounded progress + Wait accounting",
+   "~800 (quick) / ~16000 (thorough) programs enumerating the orders of {create predecessor, it finishes, it is flushed, create 1-3 successors, they finish} with chains up to 4, predecessors that complete / abort / are removed, in deterministic manual mode and in auto mode.",
+   "rank rule applied when no priority update is in the scenario",
+   "DESIGN.md 4/C17"),
+ "C18": ("exploration",
+   "runtime monitor: terminal emulator tape invariants specialised to pop mode: new persisted bar rows are exactly the final rows of the bars the flush hook reports as retired, each once, unchanged, on top, in order",
+   "~900 (quick) / ~18000 (thorough) pop-mode programs (bars finishing in any order and in the same cycle, extender rows, text in between, no-pop bars, queue-after, removal flags) on in-memory outputs and on ptys of 2-24 rows.",
+   "priority changes are not generated in pop mode (a user priority on a finished bar contradicts 'rises above all running bars'); a finished bar may still be live in the last frame",
+   "DESIGN.md 4/C18"),
  "C07": ("exploration",
    "runtime monitor: width/UTF-8/termination assertions on every real Fill, Decor and rendered row for generated styles and widths; CPU-time/heap watchdog decides non-termination",
    "Real BarFiller.Fill, Decorator.Decor and whole rows (manually refreshed container) are executed for ~140k (quick) / ~2.5M (thorough) generated styles (empty, zero-width, wide, multi-rune components), widths 0..300 (0..40 swept fully), requested widths, wrappers and int64 values; each output's display width is recomputed with the harness' own table and compared with the allotted width / the reported width / the documented row layout; a call that burns >1.5 s CPU or >768 MiB heap is non-terminating.",
